@@ -1,1 +1,24 @@
-Require Import QV.C07.Model QV.C08.Proofs.
+(* C08 — property theorems only. *)
+From Coq Require Import List NArith ZArith Bool.
+Require Import QV.C07.Model QV.C07.ProofsLib QV.C08.Proofs.
+Import ListNotations.
+Open Scope N_scope.
+
+(* Single node, EVERY input sequence (API calls and arbitrary messages / error replies / peer
+   events, even from misbehaving peers): the four tables are dictionaries; the two pending tables
+   describe the same set of requests (one request id per pending object, registered under its own
+   full signal name); no empty set is stored; a signal that has local subscribers has no pending
+   request. *)
+Theorem C08_tables_consistent : forall nm objs ins n os,
+  nodot nm = true -> node_run (init_node nm objs) ins = Some (n, os) ->
+  (NoDup (map fst (n_lsubs n)) /\ NoDup (map fst (n_rsubs n)) /\ NoDup (map fst (n_pid n)) /\ NoDup (map fst (n_pname n))) /\
+  (forall id key, In (id, key) (n_pid n) -> exists q, In (key, q) (n_pname n)) /\
+  (forall key q, In (key, q) (n_pname n) -> exists id, In (id, key) (n_pid n)) /\
+  (forall id1 id2 key, In (id1, key) (n_pid n) -> In (id2, key) (n_pid n) -> id1 = id2) /\
+  (forall key q, In (key, q) (n_pname n) -> key = key3 (pq_ctx q) (pq_pub q) (pq_sig q)) /\
+  (forall key l, In (key, l) (n_lsubs n) -> l <> []) /\
+  (forall key l, In (key, l) (n_rsubs n) -> l <> []) /\
+  (forall key q, In (key, q) (n_pname n) -> pq_sub q = true -> pq_recv q <> []) /\
+  (forall key l, In (key, l) (n_lsubs n) -> forall q, ~ In (key, q) (n_pname n)).
+Proof. exact tables_consistent. Qed.
+Print Assumptions C08_tables_consistent.
